@@ -530,7 +530,10 @@ func (r *Runner) gcPrimary(o Op) {
 		return
 	}
 	prefix, n := "mh.gc.", o.B
-	if o.B >= 1000 {
+	if o.B >= 2000 {
+		// budget expires while the n-th freelist entry of the cycle's batch is applied
+		prefix, n = "mh.gc.freelist.before-mark", o.B-2000
+	} else if o.B >= 1000 {
 		// budget expires while the n-th file of the cycle is being scanned
 		prefix, n = "mh.gc.file.start", o.B-1000
 	}
@@ -657,6 +660,13 @@ func (r *Runner) quiescent(origin string) {
 		}
 		// the decoded content must be the model's content
 		r.compareContent(res, origin)
+		// the files alone (no saved table while the store is open) must determine the same state:
+		// the table a rescan of the log would build resolves to the same record lists
+		_, rres := l.Check(l.ReplayBuckets())
+		if ok, why := fsck.ListsEqual(res, rres); !ok {
+			r.viol("fsck", "fsck-log-replay-differs", nil, "[%s] the index log no longer determines the live bucket table (a rescan would rebuild a different state): %s", origin, why)
+		}
+		r.Res.Add("fsck_log_replays_compared", 1)
 	}
 	if r.Opt.Conservation {
 		r.conservation(l, res)
